@@ -285,7 +285,10 @@ var netProtos = []netProto{
 		decode: func(in []byte) (any, error) { return network.VerifBytesDecodeTransactionMessage(in) },
 		encode: encodeMsg, typ: reflect.TypeOf([]types.Extrinsic{})},
 	{name: "transactions-handshake",
-		build:  func(k *kernel.K, l string) []byte { return fill(k, k.Choose(4, l+"len"), l) },
+		build: func(k *kernel.K, l string) []byte { // the real handshake is the empty message
+			hs, _ := network.VerifBytesDecodeTransactionHandshake(nil)
+			return mustEnc(hs)
+		},
 		decode: func(in []byte) (any, error) { return network.VerifBytesDecodeTransactionHandshake(in) },
 		encode: encodeMsg},
 	{name: "block-request", isPB: true,
@@ -506,6 +509,9 @@ func (c *ctx) checkNet(p *netProto, m mutant) bool {
 		c.report("reencode", "reencoded-message-rejected:"+p.name, "%s: %s %s: input %s decoded, re-encoded to %s, which the decoder refuses: %v", p.name, m.kind, m.detail, hx(m.data), hx(e1), errd)
 	case err2 != nil:
 		c.report("reencode", "decoded-message-not-encodable:"+p.name, "%s: %s %s: input %s: second encoding failed: %v", p.name, m.kind, m.detail, hx(m.data), err2)
+	case m.kind == "intact" && !stdbytes.Equal(e1, m.data):
+		// a message straight from the real encoder must come back unchanged
+		c.report("reencode", "intact-message-reencodes-differently:"+p.name, "%s: the valid message %s decodes and re-encodes to the different %s", p.name, hx(m.data), hx(e1))
 	case !stdbytes.Equal(e1, e2):
 		c.report("reencode", "reencode-not-stable:"+p.name, "%s: %s %s: input %s decoded, re-encoded to %s, decoded and encoded again gives the different %s", p.name, m.kind, m.detail, hx(m.data), hx(e1), hx(e2))
 	}
